@@ -19,9 +19,11 @@ Inductive obs :=
 (** writer configurations: 0 WriteXMLDoc (XMLWtr2)   1 WriteXML (XMLWtr)   2 XMLWtr{EnumAsIds}.XML *)
 Inductive case :=
 | CDoc (nss : list (ident * text)) (s : snode) (d : dnode) (cfg : nat)
-       (wrote : option xelem) (wf : bool) (back : obs) (perms : list (xelem * obs))
+       (wrote : option xelem) (wf : bool) (back : obs) (perms : list (xelem * option obs))
 | CRow (nss : list (ident * text)) (lst : snode) (d : dnode) (cfg : nat)      (* selection = an entry of list [lst] *)
-       (wrote : option xelem) (wf : bool) (back : obs) (perms : list (xelem * obs))
+       (wrote : option xelem) (wf : bool) (back : obs) (perms : list (xelem * option obs))
+       (* perms: an interleaved document and what was read back from it; None = the same tree as [back]
+          (the harness compares the emitted terms), to keep the case files small *)
 | CEsc (t escaped : text) (decoded : option text)
 | CUnesc (raw : text) (decoded : option text).
 
@@ -56,19 +58,20 @@ Definition back_ok (s : snode) (d : dnode) (o : obs) : bool :=
   match o with ObsOk b => same_tree s b d | _ => false end.
 
 Definition classify_doc (nss : list (ident * text)) (s : snode) (d : dnode) (cfg : nat)
-    (wrote : option xelem) (wf : bool) (back : obs) (perms : list (xelem * obs)) : verdict :=
+    (wrote : option xelem) (wf : bool) (back : obs) (perms : list (xelem * option obs)) : verdict :=
+  let pobs (po : xelem * option obs) : obs := match snd po with Some o => o | None => back end in
   let corr :=
     oxelem_eqb (model_write nss cfg s d) wrote &&
     match wrote with
     | Some x =>
         res_obs_eqb (model_read nss s x) back &&
-        forallb (fun po => res_obs_eqb (model_read nss s (fst po)) (snd po)) perms
+        forallb (fun po => res_obs_eqb (model_read nss s (fst po)) (pobs po)) perms
     | None => true
     end in
   let spec :=
     if in_domain s d then
       wf && match wrote with Some x => doc_wf x | None => false end &&
-      back_ok s d back && forallb (fun po => back_ok s d (snd po)) perms
+      back_ok s d back && forallb (fun po => back_ok s d (pobs po)) perms
     else true in
   classify_gen corr spec None.
 
